@@ -77,6 +77,10 @@ def gen_single(rng, with_cancel, raw=False):
     if variant in CTX_VARIANTS and not ncan:
         variant = "eager"
     case = {"kind": "single", "prog": prog, "futs": futs, "script": script, "variant": variant}
+    r = rng.random()
+    if r < 0.3:
+        # eager() called from an event-loop callback instead of from a task
+        case["caller"] = "call_soon" if r < 0.2 else "done_callback"
     if variant in CTX_VARIANTS:
         # which of the cancel events is the block exit (earlier ones are cancel() calls inside the block)
         case["exit_at"] = rng.randrange(ncan)
@@ -244,6 +248,8 @@ def oracle_single(case):
         tags.add("handler")
     if "T" in case["futs"]:
         tags.add("task-like-future")
+    if case.get("caller", "task") != "task":
+        tags.add("called-from-loop-callback:" + case["caller"])
     # --- settled instants: same observable state as the plain Task
     p2_snaps = None
     for m in case["marks"]:
@@ -281,6 +287,8 @@ def key_single(prop, what, case):
     where = "cancel-before-first-step" if any(e[0] == "cancel" for e in pre) else \
         "cancel" if ["cancel"] in case["events"] else "no-cancel"
     clr = ":flag-cleared-while-held" if any(e[0] == "clr" for e in pre) else ""
+    if case.get("caller", "task") != "task":
+        return f"{prop}:single:called-from-loop-callback"
     if case["variant"] in CTX_VARIANTS:
         return f"{prop}:single:block-exit" + (":after-cancel-inside-block" if case.get("exit_at", 0) else "")
     return f"{prop}:single:{where}{clr}"
@@ -321,6 +329,10 @@ def shrink_single(case, fails):
                 cur = c
                 improved = True
                 break
+    if cur.get("caller", "task") != "task":
+        c = {k_: v for k_, v in cur.items() if k_ != "caller"}
+        if fails(c):
+            cur = c
     if cur["variant"] in CTX_VARIANTS:
         for x in range(cur.get("exit_at", 0)):
             c = {**cur, "exit_at": x}
@@ -390,8 +402,12 @@ def gen_multi(rng, with_cancel):
             env.append([["cancel", rng.randrange(ntop)], False])
         env.append([["res", f, rng.randint(1, 9)] if r < 0.75 else ["fail", f, rng.choice(FAIL_KINDS)]
                     if r < 0.9 else ["cf", f], False])
-    return {"kind": "multi", "progs": progs, "children": children, "futs": futs, "env": env,
+    case = {"kind": "multi", "progs": progs, "children": children, "futs": futs, "env": env,
             "settle": st, "variant": rng.choice(["eager", "coro_eager", "func_eager", "factory"])}
+    r = rng.random()
+    if r < 0.25:
+        case["caller"] = "call_soon" if r < 0.15 else "done_callback"
+    return case
 
 
 def multi_events(case):
@@ -433,6 +449,8 @@ def oracle_multi(case):
         tags.add("cancel-later")
     if case["variant"] != "eager":
         tags.add("variant:" + case["variant"])
+    if case.get("caller", "task") != "task":
+        tags.add("called-from-loop-callback:" + case["caller"])
     for k in ("out", "logs", "child_out", "child_logs", "phases", "child_phases", "futs"):
         if re_[k] != rp[k]:
             return (k, rp[k], re_[k]), tags
@@ -455,6 +473,10 @@ def _flat(stmts):
 
 def shrink_multi(case, fails):
     cur = dict(case)
+    if cur.get("caller", "task") != "task":
+        c = {k_: v for k_, v in cur.items() if k_ != "caller"}
+        if fails(c):
+            cur = c
     if fails({**cur, "env": []}):
         cur["env"] = []
     else:
@@ -511,6 +533,8 @@ def key_multi(prop, what, case):
         feats.append("cancel")
     if any(imm for e, imm in case["env"]):
         feats = ["cancel-before-first-step"]
+    if case.get("caller", "task") != "task":
+        feats = ["called-from-loop-callback"]
     return f"{prop}:multi" + ("".join(":" + f for f in feats))
 
 
